@@ -439,6 +439,28 @@ def mapOpt {α β} (f : α → Option β) : List α → Option (List β)
       | none => none
       | some bs => some (b :: bs)
 
+/-! ### semantics of a `linalg.generic` body (reference for `encode`) -/
+
+def lookupV {V : Type} (inp res : List V) : KSrc → Option V
+  | .arg i => inp[i]?
+  | .res j => res[j]?
+
+def evalOps {V : Type} (sem : OpCode → List V → V) (inp : List V) : List KOp → List V → Option (List V)
+  | [], res => some res
+  | o :: r, res => match mapOpt (lookupV inp res) o.operands with
+    | none => none
+    | some vs => evalOps sem inp r (res ++ [sem o.name vs])
+
+/-- value of the body on the values `inp` of ALL its block arguments -/
+def KBody.eval {V : Type} (sem : OpCode → List V → V) (b : KBody) (inp : List V) : Option V :=
+  match evalOps sem inp b.ops [] with
+  | none => none
+  | some res => lookupV inp res b.yld
+
+/-- the data ports of the encoded kernel: the block arguments that are used, in order -/
+def KBody.usedInputs {V : Type} (b : KBody) (inp : List V) : List V :=
+  ((List.range b.argTys.length).filter b.argUsed).filterMap (inp[·]?)
+
 /-- executable evaluator (fuel = maximal depth): the value of a source under the switch valuation `swv`,
 data inputs `inp` and operation semantics `sem` -/
 def evalF {V : Type} (sem : OpCode → List V → V) (A : PE) (swv : Nat → Nat) (inp : List V) : Nat → Src → Option V
